@@ -115,7 +115,7 @@ def part_eval_kernel(ctx):
         gen_err = str(e)
     b = {"ok": False}
     if gen_ok:
-        b = ctx.coq_build(["C14/GenEval.v", "C14/EvalSound.v", "C14/PropsEval.v"])
+        b = ctx.coq_build_cached(["C14/GenEval.v", "C14/EvalSound.v", "C14/PropsEval.v"])
     model_ok = gen_ok and (COQ / "C14" / "GenEval.vo").exists() and (b["ok"] or "GenEval" not in b.get("file", ""))
     n, found = eval_kernel_differential(ctx, with_model=model_ok)
     if not gen_ok:
@@ -347,6 +347,25 @@ def range_soundness_search(ctx, ranges):
     return n, found
 
 
+RANGE_PRE = ["C14/RangeBase.v", "C14/GenRange.v", "C14/RangeSound.v", "C14/RangeLemmas2.v"]
+RANGE_POST = ["C14/RangeOp.v", "C14/PropsRange.v"]
+
+
+def _range_build(ctx):
+    """RangeBase/GenRange/RangeSound/RangeLemmas2 -> per-evaluator files (parallel) -> RangeOp -> PropsRange.
+    Files are recompiled unless their .vo was produced from byte-identical inputs (source, all
+    dependency sources, Coq version): see coqrun.coqc_cached."""
+    b = ctx.coq_build_cached(RANGE_PRE)
+    if not b["ok"]:
+        return b
+    files = [f"C14/{f}.v" for f in RANGE_PROOF_FILES]
+    # RangeBits imports C14.EvalSound (bit lemmas), which is built by part_eval_kernel before
+    b = ctx.coq_build_parallel(files, deps=RANGE_PRE + ["C14/GenEval.v", "C14/EvalSound.v"], timeout=1500, workers=6)
+    if not b["ok"]:
+        return b
+    return ctx.coq_build_cached(RANGE_POST, deps=RANGE_PRE + ["C14/GenEval.v", "C14/EvalSound.v"] + files, timeout=1500)
+
+
 def part_range(ctx):
     gen_err = None
     try:
@@ -354,17 +373,16 @@ def part_range(ctx):
         (COQ / "C14" / "GenRange.v").write_text(text)
     except Unsupported as e:
         gen_err = str(e)
+    import time
     ranges = range_grid(ctx)
+    t = time.time()
     n_s, found = range_soundness_search(ctx, ranges)
+    ctx.log(f"range soundness search {time.time()-t:.0f}s ({n_s} samples)"); t = time.time()
     n_m = 0
     if gen_err is None:
-        b = ctx.coq_build_cached(["C14/RangeBase.v", "C14/GenRange.v", "C14/RangeSound.v"])
+        b = _range_build(ctx)
+        ctx.log(f"range build {time.time()-t:.0f}s reused={len(ctx.extra.get('reused_vo', []))}"); t = time.time()
         model_ok = (COQ / "C14" / "GenRange.vo").exists() and (b["ok"] or "GenRange" not in b.get("file", ""))
-        if b["ok"]:
-            files = [f"C14/{f}.v" for f in RANGE_PROOF_FILES if (COQ / "C14" / f"{f}.v").exists()]
-            b = ctx.coq_build_parallel(files, deps=["C14/RangeBase.v", "C14/GenRange.v", "C14/RangeSound.v"])
-            if b["ok"] and (COQ / "C14" / "PropsRange.v").exists():
-                b = ctx.coq_build_cached(["C14/RangeBase.v", "C14/GenRange.v", "C14/RangeSound.v"] + files + ["C14/PropsRange.v"])
         if model_ok:
             n_m = range_model_differential(ctx, ranges)
         if not b["ok"] and not found:
@@ -377,18 +395,23 @@ def part_range(ctx):
 
 def prebuild(ctx):
     """Called by setup_cmd: generate and compile once so that checks can reuse byte-identical inputs."""
+    text, _ = gen_eval()
+    (COQ / "C14" / "GenEval.v").write_text(text)
+    ctx.coq_build_cached(["C14/GenEval.v", "C14/EvalSound.v", "C14/PropsEval.v"])
     (COQ / "C14" / "GenRange.v").write_text(gen_range())
-    b = ctx.coq_build_cached(["C14/RangeBase.v", "C14/GenRange.v", "C14/RangeSound.v"])
-    if b["ok"]:
-        files = [f"C14/{f}.v" for f in RANGE_PROOF_FILES if (COQ / "C14" / f"{f}.v").exists()]
-        ctx.coq_build_parallel(files, deps=["C14/RangeBase.v", "C14/GenRange.v", "C14/RangeSound.v"])
+    _range_build(ctx)
 
 
 def run(ctx):
+    import time
     total = 0
+    t = time.time()
     total += wordtie.run(ctx)
+    ctx.log(f"wordtie {time.time()-t:.0f}s"); t = time.time()
     total += part_eval_kernel(ctx)
+    ctx.log(f"eval kernel {time.time()-t:.0f}s"); t = time.time()
     total += part_range(ctx)
+    ctx.log(f"range {time.time()-t:.0f}s")
     ctx.corr.setdefault("evaluations", 0)
     ctx.corr["evaluations"] += total
     ctx.corr["distinct_nontrivial"] = total
